@@ -28,7 +28,7 @@ PROPS = {
     "C02": dict(
         title="No node starts before all of its dependencies have finished",
         core=["SCH-ORIGIN", "SCH-RSET", "SCH-DONE", "SCH-PRUNE", "REF-FIELDS"],
-        aux=["SCH-ROOTS", "REF-DEREF", "REF-MAT", "ERR-CHECK", "SCH-TASKDONE", "REF-SEED", "SCH-BIDICT", "REF-RESULTTRY", "REF-KWNAME", "REF-NONEKEY", "REF-ARGORDER", "ERR-WRAP", "REF-KEY", "OWN-CONSUME", "GT-SELECT"],
+        aux=["SCH-ROOTS", "REF-DEREF", "REF-MAT", "ERR-CHECK", "SCH-TASKDONE", "REF-SEED", "SCH-BIDICT", "REF-RESULTTRY", "REF-KWNAME", "REF-NONEKEY", "REF-ARGORDER", "ERR-WRAP", "REF-KEY", "OWN-CONSUME", "GT-SELECT", "REF-GETITEM"],
         explanation="Inductive argument over all loop paths of the scheduler: INV 'every id in the runnable set has in-degree 0 in "
                     "the remaining graph, which holds exactly the unfinished selected nodes' is established by the prune and "
                     "preserved by every event class (selection, removal, dispatch, wait, release of successors); a dispatch only "
@@ -39,7 +39,7 @@ PROPS = {
     "C03": dict(
         title="Each selected active node runs exactly once per execution, nothing else runs",
         core=["SCH-ONCE", "SCH-ORIGIN", "SCH-PRUNE", "SCH-DONE"],
-        aux=["OWN-STRICT", "OWN-FORCE", "REF-UNIQ", "GT-CYCLE", "GT-GATE", "GT-CARRY", "REF-KEY", "SCH-DEACT", "GT-POP", "GT-ALIAS", "OWN-LIVERESULTS", "REF-WRAPDICT", "REF-FUNCOPY", "REF-UNWRAP", "OWN-WRITEBACK", "SCH-ACTIVE", "GT-GATEEXACT", "REF-CALLID", "GT-EXECSETUP", "GT-PRESENCE", "GT-DEBUGINC", "REF-ACTIVE-BUILD"],
+        aux=["OWN-STRICT", "OWN-FORCE", "REF-UNIQ", "GT-CYCLE", "GT-GATE", "GT-CARRY", "REF-KEY", "SCH-DEACT", "GT-POP", "GT-ALIAS", "OWN-LIVERESULTS", "REF-WRAPDICT", "REF-FUNCOPY", "REF-UNWRAP", "OWN-WRITEBACK", "SCH-ACTIVE", "GT-GATEEXACT", "REF-CALLID", "GT-EXECSETUP", "GT-PRESENCE", "GT-DEBUGINC", "REF-ACTIVE-BUILD", "SIB-FWD", "CACHE-FLOW"],
         explanation="Exactly-once event pattern on every loop path: the selected id leaves the runnable set exactly once on every "
                     "path that dispatches or deactivates it and never otherwise; at most one dispatch per iteration; pre-computed "
                     "ids pruned before the runnable set is formed; results map write-once; per-call-site ids.",
@@ -49,7 +49,7 @@ PROPS = {
     "C04": dict(
         title="At most max_concurrency pooled nodes in flight; resources decide the thread",
         core=["SCH-BOUND", "SCH-COUNT"],
-        aux=["SCH-ARMS", "VAL-MAXC", "SIB-FWD-SCHED", "SCH-POOLSIZE", "VAL-CONF", "SCH-TASKDONE", "SCH-ONLYDISPATCH", "VAL-POSTINIT", "ERR-NOSWALLOW", "SIB-OVERLOAD", "SCH-OWNTHREAD", "SCH-POOLOWN", "VAL-CONFKEYS", "OWN-COMPOSE", "SIB-CTORARGS", "REF-WRAPDICT"],
+        aux=["SCH-ARMS", "VAL-MAXC", "SIB-FWD-SCHED", "SCH-POOLSIZE", "VAL-CONF", "SCH-TASKDONE", "SCH-ONLYDISPATCH", "VAL-POSTINIT", "ERR-NOSWALLOW", "SIB-OVERLOAD", "SCH-OWNTHREAD", "SCH-POOLOWN", "VAL-CONFKEYS", "OWN-COMPOSE", "SIB-CTORARGS", "REF-WRAPDICT", "REF-REBUILDALL"],
         explanation="On every path reaching a pooled dispatch either a live guard literal implies in-flight < max or every in-flight "
                     "set was waited on since the last submission; the count covers every set that receives futures; sets shrink "
                     "only through waits; resource -> dispatch-kind mapping exhaustive and correct; max_concurrency >= 1 validated "
@@ -60,7 +60,7 @@ PROPS = {
     "C05": dict(
         title="A sequential node never overlaps any other node of its execution",
         core=["SCH-SEQ-PRE", "SCH-SEQ-POST"],
-        aux=["SCH-COUNT", "SCH-ARMS", "VAL-CONF", "VAL-EXPAND", "SCH-ONLYDISPATCH", "VAL-POSTINIT", "REF-UNWRAP", "REF-WRAPDICT", "VAL-SYNTHSEQ", "SIB-OVERLOAD", "OWN-RUN", "GT-ALIAS"],
+        aux=["SCH-COUNT", "SCH-ARMS", "VAL-CONF", "VAL-EXPAND", "SCH-ONLYDISPATCH", "VAL-POSTINIT", "REF-UNWRAP", "REF-WRAPDICT", "VAL-SYNTHSEQ", "SIB-OVERLOAD", "OWN-RUN", "GT-ALIAS", "REF-REBUILDALL"],
         explanation="Pre-guard fact 'not sequential or nothing in flight' is live at every dispatch of every loop path; after a "
                     "pooled dispatch of a possibly sequential node its in-flight set is drained before the loop head.",
         not_decided="nothing structural; wait primitives trusted",
@@ -111,7 +111,7 @@ PROPS = {
     "C10": dict(
         title="twz_active runs a node iff the supplied value is truthy; otherwise None",
         core=["REF-DEREF", "SCH-DEACT", "REF-FIELDS"],
-        aux=["SCH-ACTIVE", "REF-FLAGPRED", "REF-KEY", "REF-ASDICT", "REF-ACTIVE-BUILD", "REF-GETITEM", "REF-REWIRE", "REF-NONEKEY", "REF-SEEDACT", "REF-SETUPOUT", "REF-CALLID", "OWN-ARGS", "REF-SEED", "REF-MAT"],
+        aux=["SCH-ACTIVE", "REF-FLAGPRED", "REF-KEY", "REF-ASDICT", "REF-ACTIVE-BUILD", "REF-GETITEM", "REF-REWIRE", "REF-NONEKEY", "REF-SEEDACT", "REF-SETUPOUT", "REF-CALLID", "OWN-ARGS", "REF-SEED", "REF-MAT", "REF-SAMENODE"],
         explanation="The flag is decided by the truthiness of the reference dereferenced through the accessor (key path applied); "
                     "deactivated arm = no dispatch + graph removal + release of successors; the flag is a dependency edge; the "
                     "nested-DAG flag is attached to stubs and inner nodes under one presence predicate.",
@@ -151,7 +151,7 @@ PROPS = {
     "C14": dict(
         title="A failing node fails the call, names itself, and starts nothing downstream",
         core=["ERR-WRAP", "ERR-CHECK", "ERR-NOSWALLOW"],
-        aux=["SCH-DONE", "SCH-EXIT", "ERR-CTX", "SCH-BIDICT", "ERR-FAILSTOP", "REF-NONEKEY", "ERR-LOGFMT", "ERR-FRAME", "REF-RESULTTRY", "SCH-POOLSIZE", "ERR-LOCFRESH", "SCH-GUARD", "SIB-WAIT", "VAL-CONF", "SCH-TASKDONE", "REF-REBUILDALL"],
+        aux=["SCH-DONE", "SCH-EXIT", "ERR-CTX", "SCH-BIDICT", "ERR-FAILSTOP", "REF-NONEKEY", "ERR-LOGFMT", "ERR-FRAME", "REF-RESULTTRY", "SCH-POOLSIZE", "ERR-LOCFRESH", "SCH-GUARD", "SIB-WAIT", "VAL-CONF", "SCH-TASKDONE", "REF-REBUILDALL", "SCH-WAITMODE"],
         explanation="The node call is wrapped with id + call location 'from e'; every newly done future is checked before the "
                     "wait helper returns and before the node is removed from the graph; no handler between the check and the API "
                     "boundary; context managers around the node call do not suppress.",
